@@ -346,7 +346,7 @@ def build_targets(ctx, tier):
     corp = vlib.run_impl('corpus.load', [None])[0]
     corp = [c for c in corp if 'src' in c]
     lim = os.environ.get('C20_LIMIT')
-    step = 1 if tier == 'thorough' else 6
+    step = 1 if tier == 'thorough' else 8
     progs = []
     for c in corp[::step]:
         progs.append({'src': c['src'], 'tag': f"{c['file']}:{c['idx']}",
@@ -354,7 +354,7 @@ def build_targets(ctx, tier):
                                  'timer': [fb(x) for x in c['timer']] + [fb(1.5)] * 5,
                                  'inkey': c['inkey']},
                       'kind': 'corpus:' + c.get('expected_result', '?')})
-    gens = [c20gen.gen_program(i) for i in range(40)]
+    gens = [c20gen.gen_program(i) for i in range(40 if tier == 'thorough' else 24)]
     for g in gens:
         progs.append({'src': g['src'], 'tag': g['tag'], 'script': GEN_SCRIPT, 'kind': 'generated'})
     if lim:                                     # development aids only; never set by ./check
@@ -420,7 +420,7 @@ def main(tier, seed):
             stop if isinstance(stop, int) else -1, 'host-exception'))
     ctx.count('reference', NT, set(refs[ti]['digest'] for ti in range(NT)))
     ctx.rule.append(f'targets: {len(progs)} programs ({ctx.dist.get("programs:corpus", 0)} of the {ncorp} repository '
-                    f'test programs incl. those expected to fail, + 40 generated stress programs) x 6 configurations '
+                    f'test programs incl. those expected to fail, + {len(gens)} generated stress programs) x 6 configurations '
                     f'(O0/O1/O2 x debug) = {NT}; observation = {OBS}; reference = pristine interpreter (fork of a '
                     'worker that imported the compiler and compiled nothing), PYTHONHASHSEED=0, cwd=/repo; '
                     'non-trivial = distinct observation digests')
@@ -455,7 +455,7 @@ def main(tier, seed):
     # ---- reused process: long chains (every history length), seed 0 and seed random
     order = list(range(NT))
     ctx.rng.shuffle(order)
-    nseq = 32
+    nseq = max(1, min(32, NT // 4))
     seqs = [order[i::nseq] for i in range(nseq)]
     chain_cases = [{'steps': [{'t': pub(targets[ti]), 'ref': refs[ti]['digest']} for ti in sq]} for sq in seqs]
 
@@ -481,7 +481,7 @@ def main(tier, seed):
     batch = [{'fn': 'sequence', 'case': c} for c in chain_cases]      # hash seed 0: see the batch below
     slices = {'chain': (0, len(batch))}
     ctx.rule.append(f'chain: all targets in a VERIF_SEED-shuffled order, split over {nseq} processes, each process '
-                    'compiling and running its targets one after the other (history lengths 0..N/32, failing '
+                    f'compiling and running its targets one after the other (history lengths 0..{NT // nseq}, failing '
                     'compilations and the same program at other levels included), under hash seed 0 and '
                     'PYTHONHASHSEED=random')
 
@@ -608,15 +608,15 @@ def main(tier, seed):
     log(f'seed-0 batch: {len(batch)} isolated cases')
     bout = run_env('isolated', batch, hashseed='0')
 
-    def part(name):
+    def bpart(name):
         a, b = slices[name]
         return bout[a:b]
-    judge_chain(part('chain'), '0')
-    judge_history(part('history'))
-    judge_two(part('two'))
-    judge_thread(part('thread'))
-    judge_later(part('later'))
-    outs = part('machines')
+    judge_chain(bpart('chain'), '0')
+    judge_history(bpart('history'))
+    judge_two(bpart('two'))
+    judge_thread(bpart('thread'))
+    judge_later(bpart('later'))
+    outs = bpart('machines')
     sig_changes = 0
     for ti, c, o in zip(mt, cases, outs):
         t = targets[ti]
@@ -654,7 +654,7 @@ def main(tier, seed):
                     'must all equal the reference run; the partner machine must equal its own solitary run; '
                     'class-level mutable attributes of the qvm classes are compared before/after')
     if mt:
-        ctx.extra['machine_constructed_off_main_thread'] = part('mthread')[0]
+        ctx.extra['machine_constructed_off_main_thread'] = bpart('mthread')[0]
 
     log('the model (about which run_deterministic is proved) on the same modules')
     # ---- the model (about which run_deterministic is proved) on the same modules
